@@ -1,5 +1,6 @@
 SPECIFICATION Spec
 CONSTANTS
+  AllowToggle <- Yes
   Users <- N_Users
   Chans <- N_Chans
   NickPool <- N_Pool
